@@ -28,11 +28,11 @@ def opFault (op : String) (a : Args) : Option String := do
     | some "none" | none => none
     | some v => v.toNat?
   match op with
-  | "fault.enc" => some "oracle-only"   -- cipher / codec layers are external: judged by the oracle alone
+  | "fault.enc" | "fault.writec" => some "oracle-only"   -- cipher / codec layers are external: judged by the oracle alone
   | "fault.read" => some (faultRead (← a.hex? "bytes") fa)
   | "fault.write" =>
     let calls := ((a.get? "calls").getD "").splitOn ";"
-    let ext := mkWExt [] []
+    let ext := mkWExt (parseComp ((a.get? "comp").getD "-")) (parseZc ((a.get? "zc").getD "-"))
     let tail := fun (d : Dev) => s!" ncalls={d.calls}"
     match calls with
     | first :: rest =>
